@@ -19,3 +19,28 @@ impl GuardHome {
         ClaimGuard { key_index, zalsa, shard: &self.shard, mode: ReleaseMode::Default, zalsa_local }
     }
 }
+
+// @verif prop=NONE obl=X tier=thorough bounds="feasibility probe: one insert + find + remove on hashbrown::HashTable<SyncState> with a concrete key"
+/// Probe (not part of any claim): cost of a single hashbrown insert/find/remove under CBMC.
+#[kani::proof]
+#[kani::unwind(6)]
+#[kani::stub(real_catch_unwind, stub_catch_unwind)]
+fn x_probe_hashtable_one_insert() {
+    let mut t: HashTable<SyncState> = HashTable::new();
+    // SAFETY: small index.
+    let k = unsafe { Id::from_index(0) };
+    let hash = FxBuildHasher.hash_one(k);
+    t.insert_unique(
+        hash,
+        SyncState { key: k, id: SyncOwner::Transferred, anyone_waiting: false, is_transfer_target: false, claimed_twice: false },
+        |s| FxBuildHasher.hash_one(s.key),
+    );
+    let found = t.find_entry(hash, |s| s.key == k);
+    assert!(found.is_ok());
+    if let Ok(e) = found {
+        let (s, _) = e.remove();
+        assert!(s.key == k);
+    }
+    assert!(t.is_empty());
+    std::mem::forget(t);
+}
